@@ -13,9 +13,20 @@
     mua <k> <unit>*k -> "<offset> <n> <swap offset>*n"     (from_tk.make_units_adjacent)
     tkspec <circuit> -> "ok nq=<n> nb=<n> cmds=<…> ps=<…> cg=<name(v,…);…> bw=<v,…> scal=<…>" | "err <class>"
                         values: r<id> | o<g>.<p>
+
+  tket circuit tokens (what from_tk reads):
+      <n_qubits> <n_bits> <scaled 0|1> <k> (<op> <par|N> <m> <qubit>*m <m> <bit>*m)*k
+      <p> (<bit> <value>)*p  <pp dom> <pp cod> <j> ((swap | gate <name> <nin> <nout>) <offset>)*j
+      par = tket parameter as a numerator over 16 (even)
+
+    fromtk <tket circuit> -> "ok dom=<w…> cod=<w…> boxes=<box@offset;…> <flags>" | "err <class> <flags>"
+                        a box is printed with the tokens of the circuit language joined by '_';
+                        flags: wf=<TkIn.wellFormed> imp=<TkIn.importable> final=<TkIn.psFinal>
+    tkround <scaled> <circuit> -> "ok a=<tkspec fields of the circuit> | b=<tkspec fields of from_tk(to_tk(circuit))>"
+                        | "err <stage> <class>"      (the round trip on the model)
 -/
 import Driver.Codec
-import Model.TkFrom
+import Model.TkImport
 
 namespace DV.TkCmd
 open DV DV.Codec DV.Tk
@@ -77,8 +88,92 @@ def pBV : BV → String
 
 def pCG (c : CG) : String := s!"{c.1}({commas (c.2.map pBV)})"
 
+def pbox : P PBox := do
+  let t ← tok
+  match t with
+  | "swap" => pure .swap
+  | "gate" => do let name ← tok; let i ← nat; let o ← nat; pure (.gate name i o)
+  | _ => throw s!"bad pbox {t}"
+
+def tcmd : P Cmd := do
+  let op ← tok
+  let par ← optInt
+  let qs ← many nat
+  let bs ← many nat
+  match par with
+  | some p => if p % 2 ≠ 0 then throw s!"odd angle numerator {p}" else pure ⟨op, par, qs, bs⟩
+  | none => pure ⟨op, par, qs, bs⟩
+
+def tkin : P TkIn := do
+  let nq ← nat
+  let nb ← nat
+  let scaled ← bool
+  let cmds ← many tcmd
+  let ps ← many (do let k ← nat; let v ← nat; pure (k, v))
+  let dom ← nat
+  let cod ← nat
+  let ls ← many (do let b ← pbox; let off ← nat; pure (b, off))
+  pure ⟨nq, nb, cmds, ps, scaled, ⟨dom, cod, ls⟩⟩
+
+def pW : W → String
+  | .q => "q"
+  | .b => "b"
+
+def pWs (t : List W) : String := String.join (t.map pW)
+
+def pNats (xs : List Nat) : String := pList toString xs
+
+def b01 (b : Bool) : String := if b then "1" else "0"
+
+/-- A box in the token syntax of the circuit language (`tbox` reads it back). -/
+def pTBox : TBox → String
+  | .ket bs => s!"ket {pNats bs}"
+  | .bits bs d => s!"bits {b01 d} {pNats bs}"
+  | .measure n de ov => s!"measure {n} {b01 de} {b01 ov}"
+  | .bra bs => s!"bra {pNats bs}"
+  | .discard t => s!"discard {pList pW t}"
+  | .swap l r => s!"swap {pW l} {pW r}"
+  | .scalar k m => s!"scalar {k} {b01 m}"
+  | .cgate name i o => s!"cgate {name} {i} {o}"
+  | .rot cls num => s!"rot {cls} {num}"
+  | .gate name n => s!"gate {name} {n}"
+  | .other d c => s!"other {pList pW d} {pList pW c}"
+
+def pLayerT (l : TBox × Nat) : String := (pTBox l.1).replace " " "_" ++ s!"@{l.2}"
+
+def pD (d : D) : String :=
+  s!"dom={pWs d.dom} cod={pWs d.cod} boxes={String.intercalate ";" (d.layers.map pLayerT)}"
+
+def pSp (sp : Sp) : String :=
+  s!"nq={sp.nq} nb={sp.nb} cmds={pCmds sp.cmds} ps={pPS sp.ps} " ++
+  s!"cg={String.intercalate ";" (sp.cg.map pCG)} bw={commas (sp.bw.map pBV)} scal={pScal sp.scal}"
+
 def handle (cmd : String) (rest : List String) : Option String :=
   match cmd with
+  | "fromtk" =>
+    some <| match tkin.run rest with
+      | .error m => "bad " ++ m
+      | .ok (_, _ :: _) => "bad trailing tokens"
+      | .ok (inp, []) =>
+        let flags := s!"wf={b01 inp.wellFormed} imp={b01 inp.importable} final={b01 inp.psFinal}"
+        match fromTk inp with
+        | .error e => s!"err {e} {flags}"
+        | .ok d => s!"ok {pD d} {flags}"
+  | "tkround" =>
+    some <| match (do let s ← bool; let c ← circ; pure (s, c)).run rest with
+      | .error m => "bad " ++ m
+      | .ok (_, _ :: _) => "bad trailing tokens"
+      | .ok ((scaled, c), []) =>
+        match canon c, toTk c with
+        | .error e, _ => s!"err canon {e}"
+        | _, .error e => s!"err totk {e}"
+        | .ok sp, .ok st =>
+          match fromTk (st.toIn scaled) with
+          | .error e => s!"err fromtk {e}"
+          | .ok d =>
+            match canon ⟨d.dom, d.layers⟩ with
+            | .error e => s!"err recanon {e}"
+            | .ok sp' => s!"ok a= {pSp sp} | b= {pSp sp'}"
   | "totk" =>
     some <| match circ.run rest with
       | .error m => "bad " ++ m
